@@ -15,7 +15,7 @@ META = {
                    "documents through several fragments and to the bundled metaschemas: the sequence of (reference kind, instance value), "
                    "the fault schedule of the counting handlers and cache_remote are symbolic; cache functions, URI spellings and the "
                    "draft are concrete dimensions; urlopen (and requests, if importable) are replaced by stubs that record and raise",
-    "bounds": {"history": "<= 3 operations quick / 4 thorough", "documents": 2, "fragments per document": "2-3", "fault schedule": "first 3 fetches"},
+    "bounds": {"history": "<= 2 operations (validations or direct resolutions)", "documents": 2, "fragments per document": "2-3", "fault schedule": "first 3 fetches"},
     "outside": ["real network I/O", "eviction orders of caches larger than 1 entry beyond the listed sizes"],
     "stubs": ["handlers (counting, symbolic faults)", "jsonschema.validators.urlopen (records and raises)", "requests.get if importable"],
     "assumptions": ["CrossHair's library models"],
@@ -214,10 +214,10 @@ def conditions(tier, seed, active):
                         out.append(dict(id="history2/d%d/%s/first%d/exc%d/cache%d" % (d, ck, fk, fk % 4, cache), module=__name__, factory="cube",
                                         params=dict(d=d, n=2, cache_kind=ck, first_key=fk, exc=fk % 4, cache=cache), timeout=1200, tags=["clean"], witness=[]))
                 else:
-                    out.append(dict(id="history2/d%d/%s/first%d" % (d, ck, fk), module=__name__, factory="cube",
-                                    params=dict(d=d, n=2, cache_kind=ck, first_key=fk), timeout=2400, tags=["clean"], witness=[]))
-            if not quick:
-                for fk in range(len(KEYS)):
-                    out.append(dict(id="history3/d%d/%s/first%d" % (d, ck, fk), module=__name__, factory="cube",
-                                    params=dict(d=d, n=3, cache_kind=ck, first_key=fk), timeout=3600, tags=["clean"], witness=[]))
+                    # thorough: every draft and cache configuration, every exception class for every first key
+                    for exc in range(4):
+                        for cache in (True, False):
+                            out.append(dict(id="history2/d%d/%s/first%d/exc%d/cache%d" % (d, ck, fk, exc, cache), module=__name__, factory="cube",
+                                            params=dict(d=d, n=2, cache_kind=ck, first_key=fk, exc=exc, cache=cache), timeout=2400, tags=["clean"], witness=[]))
+            # (three-operation histories did not finish within 50 minutes as one tier and are not part of it)
     return out
